@@ -33,6 +33,24 @@ CHECKS.update({
          "Each of the 48 formats, formats=None and seeded subsets: equivalence with the documented table for every text; Date languages are finite so the bound "
          "(pattern width + 2) makes the fullmatch verdict complete for all lengths.", _E2NOTE, "DESIGN.md §2 C19"),
 })
+_PNOTE = ("Trusts z3, CPython's re parser as the reader of the emitted text, the exact rexsat encoding (differentially validated against re incl. capture spans), "
+          "and the reference generator vlib/dsl.py (documented meaning of each constructor). Programs are an enumerated family (listed in the evidence bounds); "
+          "texts are decided by the solver for every text up to the stated length over all of Unicode.")
+CHECKS.update({
+ "C02": ("bounded SMT (z3): exact encoding of re's backtracking finditer for the emitted pattern vs the fully parenthesised reference, symbolic text, enumerated programs",
+         "About 25k expression trees (depth <= 2 exhaustive over the leaf/composite pools, 3-operand forms, depth 3 in the thorough tier) in class/method/operator spelling: "
+         "for each, z3 shows no text up to the bound on which match spans or capture spans differ from the fully parenthesised composition.", _PNOTE, "DESIGN.md §2 C02"),
+ "C04": ("bounded SMT (z3): exact encoding, every quantifier/bounds/greediness/spelling vs (?:operand){n,m}[?], symbolic text; documented exceptions by class",
+         "All 7 quantifiers (classes, methods, * on both sides) x bounds 0..3(4)/None x greediness x 33 operand kinds incl. already-quantified, alternated, empty-matching and "
+         "non-repeatable ones: repetition counts and greedy/lazy preference are compared on every text up to the bound; invalid bounds must raise the documented class.", _PNOTE, "DESIGN.md §2 C04"),
+ "C05": ("bounded SMT (z3): exact encoding, expressions with empty operands vs the same expressions without them, symbolic text, enumerated programs",
+         "28 ways an empty pattern arises x every operand position of every operator x 11 neighbours, again under 12 outer operators: emitted pattern equivalent to the "
+         "empty-free reference on every text up to the bound; EmptyNegativeAssertionException exactly where documented.", _PNOTE, "DESIGN.md §2 C05"),
+ "C08": ("real parser group count/names vs the expression's capture list, then bounded SMT (z3) exact encoding of spans and group spans, enumerated nestings",
+         "Capture/Group nestings of depth <= 3 (named, unnamed, case-insensitive) around 52 operand kinds incl. literals with ( ) ?: ?P<, classes containing parentheses, "
+         "look-arounds on the empty pattern, conditionals: group count, numbering and names equal the documented capture list, and matching is unchanged "
+         "(is_case_insensitive scoped to its group) on every text up to the bound.", _PNOTE, "DESIGN.md §2 C08"),
+})
 NOT_YET = "check not built yet in this round (work in progress; see DESIGN.md for the planned engine)"
 
 m = {
